@@ -509,3 +509,122 @@ def BU_bundle(ctx):
                 okt = True
     ctx.ob('BU', 'ParallelState::parallel_take_bundle', 'pending-transitions-merged-before-take', okt, '',
            what='extraction drains the pending transitions into the bundle (with the caller\'s retention) before taking it')
+
+
+# ------------------------------------------------------------------------------------------------
+# T6 / T7: the commit-side helpers that carry the journal output into the cache and the transition list
+
+
+def _loop_items(p, src_pred):
+    """`next()` calls on an iterator derived from a source satisfying src_pred, decided `Some` on this path:
+    returns [(event index of the decision, item term)]"""
+    out = []
+    for i, e in enumerate(p.events):
+        if e.kind != 'atom':
+            continue
+        t = e.d['term']
+        if t[0] == 'discr' and t[1][0] == 'call' and t[1][1].endswith('::next') and e.d['outcome'] == 'Some' and any(src_pred(s) for s in subterms(t[1])):
+            out.append((i, ('down', t[1], 'Some')))
+    return out
+
+
+def _projs(t):
+    """field names along the projection spine of a term (outermost first), looking through derefs/copies"""
+    out = []
+    t = strip(t)
+    while True:
+        if t[0] == 'field':
+            out.append(t[2] if t[2].startswith('tuple.') else t[2].split('::')[-1])
+            t = t[1]
+        elif t[0] in ('down', 'cast'):
+            t = t[1]
+        elif t[0] == 'un':
+            t = t[2]
+        elif t[0] == 'call' and is_transparent(t[1]) and t[2]:
+            t = t[2][0]
+        else:
+            return out
+
+
+def T6_slots_installed(ctx):
+    """update_storage_slot(address, slots): whichever way the per-account slot map is found (already
+    cached, created concurrently by a reader between the lookup and the entry call, or absent) every
+    (slot, value) handed in is written into THAT account's map"""
+    f = ctx.fn('parallel_state::ParallelCacheState::update_storage_slot')
+    n_items, bad = 0, []
+    arms = set()
+    for p in feasible(f.paths()):
+        ext = [e for e in p.events if e.kind == 'call' and e.d['callee'].endswith('::extend') and len(e.d['args']) >= 2 and mentions(e.d['args'][1], ('arg', 3))]
+        items = _loop_items(p, lambda s: s == ('arg', 3))
+        for e in ext:
+            n_items += 1
+            items = []
+        consumed = ext or [e for e in p.events if e.kind == 'call' and e.d['callee'].endswith('::next') and mentions(e.d['args'][0], ('arg', 3))]
+        if not consumed:
+            bad.append((p, len(p.events) - 1, 'this arm returns without writing the slots it was given'))
+        for i, item in items:
+            n_items += 1
+            ins = [x for x in p.events[i:] if x.kind == 'call' and norm_callee(x.d['callee']).endswith('DashMap::insert') and len(x.d['args']) == 3 and
+                   mentions(x.d['args'][1], item) and mentions(x.d['args'][2], item)]
+            if not ins:
+                bad.append((p, i, 'a slot taken from the argument is not inserted'))
+                continue
+            if not ('tuple.0' in _projs(ins[0].d['args'][1]) and 'tuple.1' in _projs(ins[0].d['args'][2])):
+                bad.append((p, i, 'the (slot, value) pair is not inserted as key = slot, value = value'))
+                continue
+            tgt = ins[0].d['args'][0]
+            from_account_map = any(s[0] == 'call' and norm_callee(s[1]).endswith(('DashMap::get', 'DashMap::entry', 'DashMap::get_mut')) and
+                                   mentions_field(s[2][0], 'ParallelCacheState.storage') and strip(s[2][1]) == ('arg', 2) for s in subterms(tgt))
+            fresh = tgt[0] == 'call' and norm_callee(tgt[1]).endswith(('DashMap::new', '::default', 'DashMap::with_capacity'))
+            if from_account_map:
+                arms.add('existing' if has_call(tgt, 'DashMap::get') or has_call(tgt, 'DashMap::get_mut') else 'occupied')
+            elif fresh:
+                inst = [x for x in p.events if x.kind == 'call' and callee_matches(x.d['callee'], ('VacantEntry::insert', 'DashMap::insert')) and
+                        any(strip(a) == strip(tgt) for a in x.d['args'][1:]) and
+                        (mentions_field(x.d['args'][0], 'ParallelCacheState.storage') or
+                         any(s[0] == 'call' and norm_callee(s[1]).endswith('DashMap::entry') and mentions_field(s[2][0], 'ParallelCacheState.storage') and strip(s[2][1]) == ('arg', 2)
+                             for s in subterms(x.d['args'][0])))]
+                if not inst:
+                    bad.append((p, i, 'slots are written into a fresh map that is never installed for the address'))
+                else:
+                    arms.add('vacant')
+            else:
+                bad.append((p, i, f'slots are inserted into {show(tgt)[:60]}, not into the slot map of the address argument'))
+    ctx.count('T6.slot-iterations', n_items)
+    ctx.ob('T6', f, 'every-slot-installed-in-every-arm', n_items >= 1 and not bad,
+           '; '.join(sorted({f'{site(f, p.events[i])} {why}' for p, i, why in bad})[:3]) + f' arms={sorted(arms)}', site=f.loc(f.b['lo']),
+           what='committed storage lives in the per-address slot side-map; a slot dropped in any arm (the map already cached, created meanwhile by a cache-filling reader, or absent) makes later reads serve the backing database value instead of the committed one')
+    # T7: apply_evm_state_inner
+    g = ctx.fn('parallel_state::ParallelCacheState::apply_evm_state_inner')
+    bodies = [g] + [ctx.fn(c) for c in ctx.facts.closures_under(g.name)] if hasattr(ctx.facts, 'closures_under') else [g]
+    n_app, bad7 = 0, []
+    for body in bodies:
+        for p in feasible(body.paths()):
+            for e in p.events:
+                if not (e.kind == 'call' and norm_callee(e.d['callee']).endswith('ParallelCacheState::apply_account_state')):
+                    continue
+                n_app += 1
+                a_addr, a_acc = e.d['args'][1], e.d['args'][2]
+                # address and account come from the same (address, account) pair
+                def base(t):
+                    t = strip(t)
+                    while t[0] == 'field' and t[2].startswith('tuple.'):
+                        return t[1]
+                    return t
+                if strip(a_addr) == strip(a_acc) or (base(a_addr) != base(a_acc) and not (a_addr[0] == 'arg' and a_acc[0] == 'arg')):
+                    bad7.append((body, e, 'address and account are not the two halves of one journal entry'))
+                res = e.d['result']
+                some = [x for x in p.events if x.kind == 'atom' and option_fact(x) and strip(option_fact(x)[0]) == strip(res)]
+                if some and option_fact(some[0])[1] == 'Some':
+                    pay = [t for x in p.events for t in ([a for a in x.d['args']] if x.kind == 'call' and callee_matches(x.d['callee'], 'Vec::push') else ([x.d['value']] if x.kind == 'ret' else []))]
+                    okp = any(any(s[0] == 'agg' and len(s) > 3 and any(strip(z) == strip(a_addr) for z in s[3]) and any(mentions(z, res) for z in s[3]) for s in subterms(t)) for t in pay)
+                    if not okp:
+                        bad7.append((body, e, 'a produced transition is not recorded together with its address'))
+                    rets = [x for x in p.events if x.kind == 'ret']
+                    pushes = [x for x in p.events if x.kind == 'call' and callee_matches(x.d['callee'], 'Vec::push')]
+                    if body is g and pushes and rets and strip(rets[0].d['value']) != strip(pushes[0].d['args'][0]):
+                        bad7.append((body, e, 'the returned list is not the list the transitions were pushed to'))
+    ctx.count('T7.apply-account-state-calls', n_app)
+    ctx.ob('T7', g, 'every-transition-recorded-with-its-address', n_app >= 1 and not bad7,
+           '; '.join(sorted({f'{site(b, e)} {why}' for b, e, why in bad7})[:3]), site=g.loc(g.b['lo']),
+           what='each touched account of the committed journal state is applied under its own address and every transition it yields reaches the transition state (bundle, reverts) under that address')
